@@ -19,7 +19,15 @@ RULE = ("configurations: orthorhombic / GROMACS-reduced triclinic boxes built "
         "exclusion switch, another Topology in between, exclusions rebuilt "
         "after adding an interaction, direct InsertExclusion with descending "
         "ids, one BeadList filled by two Generate calls); every call is one "
-        "evaluation per object.")
+        "evaluation per object. many-cells family: thin elongated "
+        "orthorhombic / reduced triclinic boxes whose heights give 30..600 "
+        "grid cells in one direction (2..4 in the others) or up to ~150 x "
+        "150 cells in two directions, cell counts around powers of two "
+        "(31,32,33,...,511,512,513) and random ones; 20..200 beads (3-body "
+        "20..60), 40-80 % of them within one cutoff of the periodic faces of "
+        "the long direction(s) on both sides (given outside the cell or "
+        "wrapped to the opposite end); same oracle and judgement as the "
+        "base family.")
 
 
 def prebuild():
@@ -33,6 +41,8 @@ def run(chk):
     nr = vf.tier_n(chk.tier, 1600, 40000)     # reuse sequences, pair searches
     nr3 = vf.tier_n(chk.tier, 640, 16000)     # reuse sequences, NBList_3Body
     nr3g = vf.tier_n(chk.tier, 320, 8000)     # reuse sequences, NBListGrid_3Body
+    nm = vf.tier_n(chk.tier, 640, 16000)      # many-cells configurations, pairs
+    nm3 = vf.tier_n(chk.tier, 160, 3200)      # many-cells configurations, 3-body
 
     def per(x):
         return (x + shards - 1) // shards
@@ -43,7 +53,8 @@ def run(chk):
     jobs = [lambda s=s: vf.run_proc(
         [h, "--seed", str(chk.seed), "--shard", str(s), "--n", str(per(n)),
          "--n3", str(per(n3)), "--reuse", str(per(nr)), "--reuse3",
-         str(per(nr3))], env=env, timeout=3600) for s in range(shards)]
+         str(per(nr3)), "--many", str(per(nm)), "--many3", str(per(nm3))],
+        env=env, timeout=3600) for s in range(shards)]
     # reuse of one NBListGrid_3Body object: own processes, because a stale
     # grid can end in a sanitizer abort and must not take the other families
     # with it
@@ -78,6 +89,17 @@ def run(chk):
                       "object was used for a further Generate()")
         chk.counters["reuse_grid3_shards_lost_to_abort"] = \
             chk.counters.get("reuse_grid3_shards_lost_to_abort", 0) + 1
+    # many-cells family: per-shard maxima (counters are summed on merge)
+    mx = {"max_cells_per_direction": 0, "max_grid_cells": 0}
+    for k in list(chk.counters):
+        for name in mx:
+            if k.startswith(name + "_shard_"):
+                mx[name] = max(mx[name], chk.counters.pop(k))
+    chk.counters.update(mx)
+    chk.extra["many_cells"] = dict(mx, per_direction_histogram={
+        k[len("many_cells_per_dir_"):]: v
+        for k, v in sorted(chk.counters.items())
+        if k.startswith("many_cells_per_dir_")})
     hist = {}
     for k, v in chk.counters.items():
         if k.startswith("cells_per_dir_"):
